@@ -33,6 +33,14 @@ def entry311(code, length, payload):
     return [0x80 | (code << 3) | (length - 1)] + payload
 
 
+def delta311(tag, code):
+    if code in (10, 11, 12):
+        return code - 10
+    if code in (13, 14):
+        return int(tag.split(":")[1].split(",")[0])
+    return 0
+
+
 def atoms311():
     """(tag, code, payload-bytes) for the 3.11+ location table"""
     out = []
@@ -66,7 +74,13 @@ def run(R, out, tier="quick"):
     n_out = [0]
     seen = set()
 
-    def emit(tag, table, firstlineno, codelen):
+    def emit(tag, table, firstlineno, codelen, deltas=()):
+        # well-formed: no line number ever drops below 1 (CPython reports negative lines as None)
+        run_ = firstlineno
+        for d_ in deltas:
+            run_ += d_
+            if run_ < 1:
+                return
         key = (table, firstlineno, codelen)
         if key in seen:
             return
@@ -145,7 +159,8 @@ def run(R, out, tier="quick"):
         for (tag, c, pl) in A:
             for ln in lengths:
                 for fl in (1, 1000):
-                    emit("1:%s*%d" % (tag, ln), b(entry311(c, ln, pl)), fl, ln * 2)
+                    emit("1:%s*%d" % (tag, ln), b(entry311(c, ln, pl)), fl, ln * 2, [delta311(tag, c)])
+                emit("1:%s*%d" % (tag, ln), b(entry311(c, ln, pl)), 300000, ln * 2, [delta311(tag, c)])
         # pairs over a reduced alphabet, triples over a smaller one
         def pick(names):
             return [a for a in A if a[0] in names]
@@ -157,11 +172,13 @@ def run(R, out, tier="quick"):
             for a2 in A2:
                 for l1 in lengths:
                     for l2 in ((1, 8) if not thorough else lengths):
-                        emit("2:%s*%d,%s*%d" % (a1[0], l1, a2[0], l2), b(entry311(a1[1], l1, a1[2]) + entry311(a2[1], l2, a2[2])), 1000, (l1 + l2) * 2)
+                        emit("2:%s*%d,%s*%d" % (a1[0], l1, a2[0], l2), b(entry311(a1[1], l1, a1[2]) + entry311(a2[1], l2, a2[2])), 5000, (l1 + l2) * 2,
+                             [delta311(a1[0], a1[1]), delta311(a2[0], a2[1])])
         for combo in itertools.product(A3, repeat=3):
             for ls in (((1, 1, 1), (2, 8, 1)) if not thorough else itertools.product(lengths, repeat=3)):
                 t = []
                 for a, l in zip(combo, ls):
                     t += entry311(a[1], l, a[2])
-                emit("3:%s" % ",".join("%s*%d" % (a[0], l) for a, l in zip(combo, ls)), b(t), 1000, sum(ls) * 2)
+                emit("3:%s" % ",".join("%s*%d" % (a[0], l) for a, l in zip(combo, ls)), b(t), 5000, sum(ls) * 2,
+                     [delta311(a[0], a[1]) for a in combo])
     out.put({"id": "__meta__", "tables": len(seen), "rejected_by_interpreter": n_out[0]})
